@@ -172,8 +172,39 @@ def check_path(word, acc):
         acc.violation('path_box_not_union', {}, case, observed=r, expected=exp)
 
 
+def check_long(n, kinds, variant, acc):
+    """Path.bbox is the union of the segment boxes for paths of every size (sizes bracket the powers of
+    two: a vectorised reduction has a threshold), continuous or with gaps, with one long stroke"""
+    from mc import longpaths as LP
+    if variant == 'continuous':
+        segs = LP.zigzag(n, kinds)
+    elif variant == 'gaps':
+        segs = LP.zigzag(n, kinds, gaps=tuple(range(2, n, 5)) + ((n - 1,) if n > 1 else ()))
+    elif variant == 'long_stroke':
+        segs = LP.zigzag(n, kinds, long_stroke_at=n // 3, gaps=(n // 3 + 1,) if n // 3 + 1 < n else ())
+    elif variant == 'comb':
+        segs = LP.comb(n, kinds=kinds, with_long=(n // 2) if n > 2 else None)
+    else:
+        # a gap right after a segment whose END point is the extreme of the whole path
+        segs = LP.zigzag(n, kinds)
+        k = n // 2
+        far = segs[k].start + complex(1000.0, 300.0)
+        segs[k] = Line(segs[k].start, far)
+    p = Path(*segs)
+    exp = LP.union_bbox(segs)
+    r = outcome(lambda: tuple(p.bbox()))
+    case = {'what': 'long', 'n': n, 'kinds': kinds, 'variant': variant}
+    acc.case(case, cls='long/%s' % ('ge128' if n >= 128 else 'lt128'), nontrivial=n > 1)
+    if r[0] != 'ok' or tuple(map(float, r[1])) != tuple(map(float, exp)):
+        acc.violation('path_box_not_union', {'long': True, 'variant': variant, 'n_ge_128': n >= 128}, case, observed=r, expected=exp)
+
+
+LONG_VARIANTS = ['continuous', 'gaps', 'long_stroke', 'comb', 'extreme_end_before_gap']
+
+
 def shards(tier, seed):
-    out = [{'what': 'bezier', 'shape': n} for n in list(AB.LINES) + list(AB.QUADS) + list(AB.CUBICS)]
+    out = [{'what': 'long', 'kinds': k} for k in ('L', 'LQC', 'C')]
+    out += [{'what': 'bezier', 'shape': n} for n in list(AB.LINES) + list(AB.QUADS) + list(AB.CUBICS)]
     out += [{'what': 'elevated', 'k': k} for k in range(4)]
     out += [{'what': 'arcs', 'k': k} for k in range(8)]
     out += [{'what': 'libarcs'}, {'what': 'paths'}]
@@ -230,6 +261,11 @@ def run_shard(desc, tier, seed):
                 spec = (seg.start, complex(*[abs(v) for v in (AB.ARCS[n][1].real, AB.ARCS[n][1].imag)]), seg.rotation,
                         seg.large_arc, seg.sweep, seg.end)
                 check_arc(spec, {'what': 'libarc', 'shape': n, 'rot': rot}, acc)
+    elif desc['what'] == 'long':
+        from mc import longpaths as LP
+        for n in (LP.SIZES_QUICK if tier == 'quick' else LP.SIZES_THOROUGH):
+            for v in LONG_VARIANTS:
+                check_long(n, desc['kinds'], v, acc)
     else:
         for w in PATHS:
             check_path(w, acc)
@@ -240,19 +276,22 @@ def expected_classes(tier):
     return ['C/regular/interior_extremum', 'C/denom_zero/interior_extremum', 'C/regular/endpoints_only',
             'Q/regular/interior_extremum', 'L/regular/endpoints_only', 'elevated/denom_tiny/interior_extremum',
             'elevated/denom_zero/interior_extremum', 'A/crit0/rotated', 'A/crit1/rotated', 'A/crit2/rotated',
-            'A/crit3/rotated', 'A/crit4/rotated', 'A/crit4/axis_aligned', 'path']
+            'A/crit3/rotated', 'A/crit4/rotated', 'A/crit4/axis_aligned', 'path', 'long/ge128', 'long/lt128']
 
 
 def space(tier, seed):
     return {'bezier_shapes': list(AB.LINES) + list(AB.QUADS) + list(AB.CUBICS), 'rotations': ROTS, 'scales': SCALES,
             'elevated_quadratics': len(list(elevated_family(tier))), 'arc_grid': len(list(arc_grid(tier))),
-            'library_arcs': list(AB.ARCS), 'paths': PATHS}
+            'library_arcs': list(AB.ARCS), 'paths': PATHS,
+            'long_paths': {'sizes': 'mc.longpaths.SIZES_* (powers of two up to 256 / 512 and neighbours)', 'kinds': ['L', 'LQC', 'C'], 'variants': LONG_VARIANTS}}
 
 
 def replay(case):
     acc = core.ReplayAcc()
     w = case['what']
-    if w == 'bezier':
+    if w == 'long':
+        check_long(case['n'], case['kinds'], case['variant'], acc)
+    elif w == 'bezier':
         check_bezier(case['shape'], case['rot'], case['scale'], acc)
     elif w == 'elevated':
         check_elevated(tuple(case['x']), tuple(case['y']), acc)
